@@ -123,4 +123,94 @@ namespace vh
         while ((pos = payload.find(root)) != std::string::npos) { payload.replace(pos, root.size(), "/$R"); }
         return "ok " + hex_of(payload) + " warn=" + warn;
     }
+
+    // diag <text> [<files>] [<mode>]
+    //   mode "pp" (default): the text is /main.sqf of a scratch directory; it is preprocessed, parsed and run.
+    //   mode "raw": the text is parsed as it is (what `compile` does) and run.
+    //   -> every diagnostic that carries a location, in order: "<level>:<code>@<line>:<col>:<path>" joined by ';',
+    //      then " gl=<value of gl>" (for __LINE__/__FILE__ observations) and " res=<result>"
+    inline std::string verb_diag(const std::vector<std::string>& f)
+    {
+        namespace fs = std::filesystem;
+        std::string text = f.size() > 0 ? f[0] : std::string();
+        std::vector<std::string> files;
+        if (f.size() > 1 && !f[1].empty()) { files = split(f[1], '\x01'); }
+        std::string mode = f.size() > 2 && !f[2].empty() ? f[2] : std::string("pp");
+        auto v = make_vm(regmode::real);
+        fs::path dir = fs::path("/var/tmp/sqfvm-verif/pp-scratch") / std::to_string((long)getpid());
+        fs::remove_all(dir);
+        fs::create_directories(dir);
+        for (auto& e : files)
+        {
+            auto kv = split(e, '\x02');
+            if (kv.size() < 2) { continue; }
+            fs::path p = dir / kv[0];
+            fs::create_directories(p.parent_path());
+            std::ofstream o(p, std::ios::binary);
+            o.write(kv[1].data(), (std::streamsize)kv[1].size());
+        }
+        { std::ofstream o(dir / "main.sqf", std::ios::binary); o.write(text.data(), (std::streamsize)text.size()); }
+        v.rt->fileio().add_mapping(dir.string(), "/");
+        sqf::runtime::fileio::pathinfo pi((dir / "main.sqf").string(), std::string("/main.sqf"));
+        std::string res = "none";
+        std::optional<std::string> pre = mode == "raw" ? std::optional<std::string>(text) : v.rt->parser_preprocessor().preprocess(*v.rt, text, pi);
+        if (!pre.has_value()) { res = "pp-fail"; }
+        else
+        {
+            auto set = v.rt->parser_sqf().parse(*v.rt, *pre, pi);
+            if (!set.has_value()) { res = "parse-fail"; }
+            else
+            {
+                auto context = v.rt->context_create().lock();
+                context->push_frame(sqf::runtime::frame(v.rt->default_value_scope(), *set));
+                res = result_name(v.rt->execute(sqf::runtime::runtime::action::start));
+            }
+        }
+        fs::remove_all(dir);
+        std::string out;
+        std::string root = dir.string();
+        for (auto& e : v.logger->entries)
+        {
+            if (!e.has_loc) { continue; }
+            std::string path = e.path;
+            size_t pos;
+            while ((pos = path.find(root)) != std::string::npos) { path.replace(pos, root.size(), "/$R"); }
+            if (!out.empty()) { out.push_back(';'); }
+            out += std::to_string(e.level) + ":" + std::to_string(e.code) + "@" + std::to_string(e.line) + ":" + std::to_string(e.col) + ":" + path;
+        }
+        std::string gl;
+        auto ns = v.rt->default_value_scope();
+        if (ns->contains("gl"))
+        {
+            gl = render_value(ns->at("gl"));
+            size_t pos;
+            while ((pos = gl.find(root)) != std::string::npos) { gl.replace(pos, root.size(), "/$R"); }
+        }
+        // the entries of the stack traces: "<line>:<col>:<path>" of every "<k of n> [L..|C..|path]" in their texts
+        std::string st;
+        for (auto& e : v.logger->entries)
+        {
+            if (e.code != 60001) { continue; }
+            size_t p = 0;
+            while ((p = e.text.find(" of ", p)) != std::string::npos)
+            {
+                size_t b = e.text.find("[L", p);
+                size_t close = e.text.find(']', b == std::string::npos ? p : b);
+                if (b == std::string::npos || close == std::string::npos) { break; }
+                std::string inner = e.text.substr(b + 2, close - b - 2); // 3|C4|/path
+                size_t b1 = inner.find("|C");
+                size_t b2 = inner.find('|', b1 == std::string::npos ? 0 : b1 + 2);
+                if (b1 != std::string::npos && b2 != std::string::npos)
+                {
+                    std::string path = inner.substr(b2 + 1);
+                    size_t pos;
+                    while ((pos = path.find(root)) != std::string::npos) { path.replace(pos, root.size(), "/$R"); }
+                    if (!st.empty()) { st.push_back(','); }
+                    st += inner.substr(0, b1) + ":" + inner.substr(b1 + 2, b2 - b1 - 2) + ":" + path;
+                }
+                p = close;
+            }
+        }
+        return out + " gl=" + gl + " st=" + st + " res=" + res;
+    }
 }
